@@ -62,6 +62,11 @@ class RunResult:
         self.stats[k] = self.stats.get(k, 0) + n
 
 
+# development only (tools/regress_seeded.py runs several changed trees side by side): where evidence and replays go
+EVIDENCE_DIR = os.environ.get("VERIF_EVIDENCE_DIR") or os.path.join(VERIF, "evidence")
+REPLAY_DIR = os.environ.get("VERIF_REPLAY_DIR") or os.path.join(VERIF, "replays")
+
+
 class Plan:
     def __init__(self, n_fixed: int, case: Callable[[int], dict], note: str = "",
                  exhaustive_part: str = ""):
@@ -225,12 +230,12 @@ def shrink(mod, case, values, cls, key, budget_s=60.0, max_tries=4000):
 # replay files
 
 def write_replay(prop, case, values, viol: dict, trace, base_seed, tries) -> str:
-    os.makedirs(os.path.join(VERIF, "replays"), exist_ok=True)
+    os.makedirs(REPLAY_DIR, exist_ok=True)
     body = {"property": prop, "check_version": CHECK_VERSION, "base_seed": base_seed,
             "case": case, "choices": values, "violation": viol, "shrink_tries": tries,
             "trace": trace}
     h = hashlib.sha256(json.dumps([case, values, viol["cls"]], sort_keys=True, default=str).encode()).hexdigest()[:10]
-    path = os.path.join(VERIF, "replays", "%s-%s-%s.json" % (prop, viol["cls"].replace("/", "_")[:40], h))
+    path = os.path.join(REPLAY_DIR, "%s-%s-%s.json" % (prop, viol["cls"].replace("/", "_")[:40], h))
     with open(path, "w") as f:
         json.dump(body, f, indent=1, default=str)
     return path
@@ -459,8 +464,8 @@ def run_check(mod, tier: str, base_seed: int, budget_s: Optional[float], workers
     ev = {"property_id": prop, "tier": tier, "seed": base_seed, "level": mod.LEVEL, "coverage": cov,
           "assumptions": getattr(mod, "ASSUMPTIONS", []), "wall_s": round(wall, 2),
           "violations": len(reported)}
-    os.makedirs(os.path.join(VERIF, "evidence"), exist_ok=True)
-    with open(os.path.join(VERIF, "evidence", prop + ".json"), "w") as f:
+    os.makedirs(EVIDENCE_DIR, exist_ok=True)
+    with open(os.path.join(EVIDENCE_DIR, prop + ".json"), "w") as f:
         json.dump(ev, f, indent=1, default=str)
 
     print("RUNS %d distinct=%d nontrivial=%d simtime=%.0fs wall=%.1fs runs/h=%d" % (
